@@ -4,6 +4,8 @@
    Output:     OK
              | ERR <kind>|<file_id>|<line> [<kind>|<file_id>|<line> ...]     (all returned errors, first first)
              | PANIC <site> | FUEL | READFAIL <msg>
+   Every line is followed by " !INPUT" when NoPanic.input_ok (the computable hypothesis of C07_checker_no_panic:
+   variable ids inside the variable table, the shapes the parser / resolver produce) is false of the input.
    Fuel: 3000, and 300000 when that is not enough (FUEL is printed only if 300000 is exhausted).
    argv.(1) is ignored (kept for the calling convention). *)
 open Typesmodel
@@ -43,11 +45,12 @@ let () =
         let res = match typecheck fuel_small r with
           | OutOfFuel -> typecheck (Lazy.force fuel_big) r      (* out of fuel is reported only for the big fuel *)
           | x -> x in
+        let flag = if input_ok r then "" else " !INPUT" in
         (match res with
-         | Ok _ -> print_endline "OK"
-         | Err (e, more) -> print_endline ("ERR " ^ String.concat " " (List.map err_str (e :: more)))
-         | Panic p -> print_endline ("PANIC " ^ site_name p)
-         | OutOfFuel -> print_endline "FUEL")
+         | Ok _ -> print_endline ("OK" ^ flag)
+         | Err (e, more) -> print_endline ("ERR " ^ String.concat " " (List.map err_str (e :: more)) ^ flag)
+         | Panic p -> print_endline ("PANIC " ^ site_name p ^ flag)
+         | OutOfFuel -> print_endline ("FUEL" ^ flag))
       with Failure m -> print_endline ("READFAIL " ^ m))
     done
   with End_of_file -> ());
